@@ -92,6 +92,8 @@ type Path struct {
 	intMode    bool
 	chanSlack  int
 	exitCode   int
+	lazyGo     bool
+	pendingGo  []func()
 	merged     int
 	params     map[string]int64
 }
